@@ -371,6 +371,13 @@ func (e *kvElection) attemptAcquire() error {
 			return err
 		}
 
+		// Another attempt of this instance won while this Create was in flight: a
+		// leader must not preempt anything (the write would publish a second token
+		// for a term that is already running).
+		if e.IsLeader() {
+			return nil
+		}
+
 		// Key exists - check if we should attempt priority takeover
 		if e.cfg.AllowPriorityTakeover && e.cfg.Priority > 0 {
 			return e.attemptPriorityTakeover(payloadBytes)
